@@ -798,7 +798,10 @@ def make_cond(alts):
     # containers: merge component-wise when shapes agree
     if all(isinstance(v, ATuple) for _, v in alts) and len({len(v.items) for _, v in alts}) == 1:
         n = len(alts[0][1].items)
-        return ATuple([make_cond([(g, v.items[i]) for g, v in alts]) for i in range(n)])
+        merged = [make_cond([(g, v.items[i]) for g, v in alts]) for i in range(n)]
+        if all(isinstance(v, ARecord) for _, v in alts) and len({tuple(v.names) for _, v in alts}) == 1:
+            return ARecord(merged, alts[0][1].names)  # records of one type chosen by a test: still that record
+        return ATuple(merged)
     return Poly.atom(("cond", tuple((g, vkey(v)) for g, v in alts)))
 
 
@@ -1633,6 +1636,9 @@ class Frame:
                 return Poly.atom(("call", "concat", (vkey(a), vkey(b)), ()))  # list + list, not number + number
             return as_term(a) + as_term(b)
         if isinstance(op, ast.Mult) and (isinstance(a, (AList, str)) or isinstance(b, (AList, str))):
+            lst, cnt = (a, b) if isinstance(a, (AList, str)) else (b, a)
+            if isinstance(lst, AList) and not lst.doms and isinstance(cnt, Poly) and cnt.is_const() and cnt.const_value().denominator == 1 and 0 <= cnt.const_value() <= 16:
+                return AList(list(lst.items) * int(cnt.const_value()))  # [x] * 3 is [x, x, x]
             return Poly.atom(("call", "repeat", (vkey(a), vkey(b)), ()))
         a, b = as_term(a), as_term(b)
         if isinstance(op, ast.Sub):
